@@ -189,7 +189,10 @@ pub fn compare(a: &Flat, b: &Flat, sc: &Scale, slack_abs: f64, slack_step: f64) 
     let ea = a.misc.contains_key("error_acs");
     let eb = b.misc.contains_key("error_acs");
     let fragile = |m: Option<f64>| m.map(|d| d <= sc.c_abs() * EPS * sc.e_an + slack_abs + 1e-9).unwrap_or(false);
-    if fragile(a.dhw_threshold_margin) || fragile(b.dhw_threshold_margin) {
+    // the indicator also tests "annual DHW demand == 0": a demand that the printed precision can round to zero
+    // (0.0049 kWh is written 0.00) is as fragile as the two threshold tests; only where precision is lost at all
+    let demand_fragile = |d: Option<f64>| slack_abs > 0.0 && d.map(|d| d.abs() <= slack_abs + 1e-9).unwrap_or(false);
+    if fragile(a.dhw_threshold_margin) || fragile(b.dhw_threshold_margin) || demand_fragile(a.dhw_demand) || demand_fragile(b.dhw_demand) {
         rep.skipped_ratios += 1;
     } else {
         if ea != eb || fa.is_some() != fb.is_some() {
